@@ -57,9 +57,11 @@ def warm_cache():
     """setup: build dependency artefacts once into .cache/target"""
     os.makedirs(os.path.dirname(CACHE), exist_ok=True)
     facts, scratch, secs = run()
+    tmp = CACHE + ".new.%d" % os.getpid()
+    shutil.move(os.path.join(scratch, "target"), tmp)       # may be a cross-device copy: make the switch itself a rename
     if os.path.isdir(CACHE):
         shutil.rmtree(CACHE)
-    shutil.move(os.path.join(scratch, "target"), CACHE)
+    os.rename(tmp, CACHE)
     shutil.rmtree(scratch, ignore_errors=True)
     return secs
 
